@@ -102,13 +102,13 @@ pub fn c01(ctx: &Ctx) -> (CheckMeta, Outcome) {
                     max_states: 3_000_000,
                     real_backends: true,
                     check_counter: false,
-                    leaf_combos: if thorough { 24 } else { 4 },
+                    leaf_combos: if thorough { 28 } else { 4 },
                 };
                 out.merge(explore(&run));
                 // fixpoint (whole reachable space) for the 8-bit writer
                 if wbits == 8 {
                     let alph = vec![if thorough { full.clone() } else { bnd.clone() }];
-                    let run = WrRun { property: "C01", e, wbits, wrapper: "", depth: 0, alphabets: &alph, fixpoint: true, max_states: 2_000_000, real_backends: false, check_counter: false, leaf_combos: 24 };
+                    let run = WrRun { property: "C01", e, wbits, wrapper: "", depth: 0, alphabets: &alph, fixpoint: true, max_states: 2_000_000, real_backends: false, check_counter: false, leaf_combos: 28 };
                     let o = explore(&run);
                     out.cov.notes.push(format!("{}: fixpoint of the 8-bit writer reached with {} states", cfg_id(e, wbits, ""), o.cov.states));
                     out.merge(o);
@@ -122,7 +122,7 @@ pub fn c01(ctx: &Ctx) -> (CheckMeta, Outcome) {
     let meta = CheckMeta {
         property: "C01".into(),
         level: "model_checking".into(),
-        rule: "explicit-state BFS over the real BufBitWriter (recording backend; state = Debug string (buffer, space_left) + model pending bits; rebuilt by replaying the shortest history) for E x W in {8,16,32,64,128}; alphabet write_bits(n 0..=64 x 4 value patterns x {clean, bit n set, all bits >= n set}), write_unary(0..=2W+1, 3W-1, 3W, 3W+1, 5W+3), flush; every transition: return value and words delivered during the step vs the bit-vector model; every node's history is replayed on vec/vecref/slice/adapter/adapter-over-a-3-byte-sink/rec backends with flush, flush;flush, into_inner, drop and the whole byte image compared (traces_validated_against_impl counts these replays); plus long streams: unary codes of 32 767..70 001 zeros (thorough up to 262 149), alone, between writes and across a flush, and 1 200 fixed-width writes, on every real backend".into(),
+        rule: "explicit-state BFS over the real BufBitWriter (recording backend; state = Debug string (buffer, space_left) + model pending bits; rebuilt by replaying the shortest history) for E x W in {8,16,32,64,128}; alphabet write_bits(n 0..=64 x 4 value patterns x {clean, bit n set, all bits >= n set}), write_unary(0..=2W+1, 3W-1, 3W, 3W+1, 5W+3), flush; every transition: return value and words delivered during the step vs the bit-vector model; every node's history is replayed on vec/vecref/slice/adapter/adapter-over-a-3-byte-sink/adapter-over-a-lazy-sink (commits on flush only)/rec backends with flush, flush;flush, into_inner, drop and the whole byte image compared (traces_validated_against_impl counts these replays); plus long streams: unary codes of 32 767..70 001 zeros (thorough up to 262 149), alone, between writes and across a flush, and 1 200 fixed-width writes, on every real backend".into(),
         assumptions: vec!["reference model = canonical layout (harness/src/model.rs)".into(), "by parametricity in the WordWrite backend the writer's future depends on (buffer, space_left) only".into()],
     };
     (meta, out)
@@ -186,7 +186,7 @@ pub fn c12(ctx: &Ctx) -> (CheckMeta, Outcome) {
                     l4.push(WOp::WriteBits { v: 1, n: 1 });
                     alphabets.push(l4);
                 }
-                let run = WrRun { property: "C12", e, wbits, wrapper: "", depth: alphabets.len(), alphabets: &alphabets, fixpoint: false, max_states: 3_000_000, real_backends: true, check_counter: false, leaf_combos: if thorough { 24 } else { 3 } };
+                let run = WrRun { property: "C12", e, wbits, wrapper: "", depth: alphabets.len(), alphabets: &alphabets, fixpoint: false, max_states: 3_000_000, real_backends: true, check_counter: false, leaf_combos: if thorough { 28 } else { 3 } };
                 explore(&run)
             }));
         }
@@ -378,7 +378,7 @@ pub fn long_histories(prop: &'static str, ctx: &Ctx, with_io: bool) -> Outcome {
                     let combos: Vec<(&str, &str)> = if thorough {
                         REAL_BACKENDS.iter().flat_map(|b| FINISHERS.iter().map(move |f| (*b, *f))).collect()
                     } else {
-                        vec![("vec", "into_inner"), ("vecref", "drop"), ("slice", "flush2"), ("adapter", "into_inner"), ("adapter3", "flush"), ("rec", "drop")]
+                        vec![("vec", "into_inner"), ("vecref", "drop"), ("slice", "flush2"), ("adapter", "into_inner"), ("adapter3", "flush"), ("adapterlazy", "flush"), ("rec", "drop")]
                     };
                     for (backend, finisher) in combos {
                         out.cov.transitions += h.len() as u64;
